@@ -81,14 +81,15 @@ def _gen_of(r):
             if m == 'nested_mut' and elem['k'] not in ('SEQ', 'SEQOF'):
                 m = 'append'
             if m == 'append':
-                ops.append(['append', _elem_value(r, elem), r.random() < 0.3])
+                ops.append(['append', _elem_value(r, elem), r.choice([False, False, False, True, True, 'narrow'])])
                 mlen += 1
             elif m == 'extend':
                 vs = [_elem_value(r, elem) for _ in range(r.randrange(0, 4))]
                 ops.append(['extend', vs])
                 mlen += len(vs)
             elif m == 'setitem':
-                ops.append(['setitem', r.randrange(-mlen, mlen + 1) if mlen else 0, _elem_value(r, elem)])
+                ops.append(['setitem', r.randrange(-mlen, mlen + 1) if mlen else 0, _elem_value(r, elem),
+                            r.choice([False, False, True, True, 'narrow'])])
                 mlen += 0
             elif m == 'setslice':
                 a = r.randrange(0, mlen + 1)
@@ -376,7 +377,10 @@ class OfRun(object):
         return U.absval(self.elem_obj(pv))
 
     def elem_arg(self, pv, raw):
-        if raw and self.typed and self.elem['k'] in U.PRIMS:
+        if raw == 'narrow' and self.typed and self.elem['k'] in U.PRIMS:
+            # an object of a narrower subtype of the element type: same abstract value
+            return U.narrowed(self.elem_schema, self.elem, pv)
+        if raw and raw != 'narrow' and self.typed and self.elem['k'] in U.PRIMS:
             return U.prim_arg(self.elem, pv)
         return self.elem_obj(pv)
 
@@ -455,7 +459,7 @@ class OfRun(object):
                     i = op[1]
                     if not (-n <= i <= n):
                         i = 0 if n == 0 else max(-n, min(n, i))
-                    o[i] = self.elem_obj(op[2])
+                    o[i] = self.elem_arg(op[2], op[3] if len(op) > 3 else False)
                     nm = list(mlist)
                     if i == n:
                         nm.append(op[2])
